@@ -3,6 +3,7 @@ import TensorModel.Proofs.MinMax
 import TensorModel.Proofs.CoreEq
 import TensorModel.Proofs.IterPaths
 import TensorModel.Proofs.MinMaxIter
+import TensorModel.Props.C13
 /-!
   C06 — elementwise arithmetic is coordinate-wise, in operand order, layout-blind.
   Property theorems only; helper lemmas live in `TensorModel/Proofs/Kernels.lean`.
@@ -593,6 +594,43 @@ theorem kIterVV_coordinatewise (st : St) (a b : Win) (f : BinF) (pa pb : AP) (hs
   have h2 := hob (dot c pb.strides) (by rw [eb, ← hsh]; exact List.mem_map.mpr ⟨c, hc, rfl⟩)
   exact ⟨_, _, cell_some_cellD (hA.has.at h1.1 h1.2), cell_some_cellD (hB.has.at h2.1 h2.2), hv c hc⟩
 
+/-- **Coordinate-wise and layout-blind, end to end** (safe mode, the first operand needs an iterator): for well-formed
+    operands of one shape (C13: each pattern covers its window and addresses distinct cells - any strides: transposed,
+    sliced, stepped, column-major) the result is a clone of `a` in which, **for every coordinate `c`**, the cell
+    addressed at `c` holds `op` of `a`'s and `b`'s elements at `c`, in operand order. -/
+theorem engArithVV_safe_iter_coordinatewise (st : St) (op : String) (a b : Dense)
+    (hshape : b.ap.shape = a.ap.shape) (hdt : a.dt = b.dt) (hnum : a.dt ∈ numberTypes) (hk : a.dt ∈ kernelTypes op)
+    (hia : a.requiresIterator = true) (hma : a.mask = none) (hmb : b.mask = none) (hlb : b.win.len ≠ 1)
+    (hca : C13.Covers a.ap (a.win.len : Int)) (hinja : InjectivePat a.ap.shape a.ap.strides)
+    (hcb : C13.Covers b.ap (b.win.len : Int)) (hinjb : InjectivePat b.ap.shape b.ap.strides)
+    (hA : InBuf st a.win.buf a.win.off a.win.len) (hB : InBuf st b.win.buf b.win.off b.win.len) :
+    ∃ out c, engArithVV st op numberTypes a b {} = .ok out ∧ out.ret = .fresh c ∧ c.ap = { a.ap with fin := true } ∧
+      (∀ co ∈ allCoords a.ap.shape, ∃ x y,
+        cell st a.win.buf (a.win.off + (dot co a.ap.strides).toNat) = some x ∧
+        cell st b.win.buf (b.win.off + (dot co b.ap.strides).toNat) = some y ∧
+        cell out.st c.win.buf (dot co a.ap.strides).toNat = some (.app2 op x y)) ∧
+      (∀ b' k, b' < st.heap.size → cell out.st b' k = cell st b' k) := by
+  obtain ⟨hoa, hnd⟩ := C13.wf_offsets a a.win.len hca hinja
+  obtain ⟨hob, _⟩ := C13.wf_offsets b b.win.len hcb hinjb
+  have hsh : shapeEq a.shape b.shape = true := by
+    have : b.shape = a.shape := hshape
+    rw [this]; exact shapeEq_self _
+  obtain ⟨out, c, h, hret, hap, _, _, hv, _, hfr⟩ := engArithVV_safe_iter st op a b hsh hdt hnum hk hia hma hmb hlb hoa hob hnd hA hB
+  refine ⟨out, c, h, hret, hap, ?_, hfr⟩
+  have hp := hca.2.2.1
+  have eoa : a.offsets = (allCoords a.ap.shape).map (fun c => dot c a.ap.strides) := by
+    unfold Dense.offsets; exact offsets_rowmajor a.ap hca.1 hp
+  have eob : b.offsets = (allCoords a.ap.shape).map (fun c => dot c b.ap.strides) := by
+    unfold Dense.offsets
+    rw [offsets_rowmajor b.ap hcb.1 hcb.2.2.1, hshape]
+  intro co hco
+  obtain ⟨k, hk', hkc⟩ := List.getElem_of_mem hco
+  have ga : a.offsets[k]? = some (dot co a.ap.strides) := by
+    rw [eoa, List.getElem?_map, List.getElem?_eq_getElem hk', hkc]; rfl
+  have gb : b.offsets[k]? = some (dot co b.ap.strides) := by
+    rw [eob, List.getElem?_map, List.getElem?_eq_getElem hk', hkc]; rfl
+  exact hv k _ _ ga gb
+
 /-! ## 6. elementwise minimum / maximum (`MinBetween`, `MaxBetween`) -/
 
 /-- **Safe mode**, raw path: a fresh tensor of the operand's element type, shape **and data order** (the default
@@ -751,6 +789,11 @@ def tac : Dense := { ta with ap := { ta.ap with strides := calcStridesCol ta.ap.
 def tbc : Dense := { tb with ap := { tb.ap with strides := calcStridesCol tb.ap.shape, o := { col := true } } }
 example := engMMVV_safe st "minb" tac tbc (by decide) rfl (by decide) (by decide) (by decide) (by decide) rfl (by decide)
   (by decide) inA inB
+example := engArithVV_safe_iter_coordinatewise st "add" tT tb rfl rfl (by decide) (by decide) (by decide) rfl rfl (by decide)
+  ⟨rfl, by decide, by decide, by decide⟩ (by
+    have h := C13.T_distinct [1, 0] [2, 2] [2, 1] (by decide) rfl (C13.default_distinct [2, 2])
+    simpa [gatherI, tT] using h)
+  ⟨rfl, by decide, by decide, by decide⟩ (C13.default_distinct [2, 2]) inA inB
 example := engMMVV_safe_iter st "minb" tT tb (by decide) rfl (by decide) (by decide) rfl rfl (by decide) (by decide) (by decide)
   (by decide) (by decide) (by decide) (by decide) inA inB
 example : ∃ out r, engMMVV st "minb" tac tbc {} = .ok out ∧ out.ret = .fresh r ∧ r.ap.o.col = true := ⟨_, _, rfl, rfl, rfl⟩
